@@ -100,6 +100,20 @@ func (c *Ctx) genC09() {
 			c.count("c09-removed", fmt.Sprint(len(removed)))
 		}
 	}
+	// ciphertexts that do not yield an assertion element: undecryptable in six ways, or decryptable to a plaintext
+	// without any element — under a signed and an unsigned Response, through both entry points
+	for _, wrap := range []string{"b", "b-empty", "b-blank", "b-ivonly", "b-truncated", "b-flipped", "b-nokey", "b-noroot-empty", "b-noroot-space", "b-noroot-comment", "b-noroot-pi", "b-key-empty", "b-key-truncated"} {
+		for _, rsig := range []string{"none", "idp"} {
+			for _, entry := range []string{"xml", "post"} {
+				cfg := baseCfg()
+				r := baseResp(cfg, now)
+				r.Sig = rsig
+				r.Entries[0].Wrap = wrap
+				c.count("c09-no-assertion-ciphertext", wrap)
+				c.runSP(spCase{cfg: cfg, now: now, ids: []string{"id-req1"}, url: cfg.Acs, r: r, lex: 0, entry: entry})
+			}
+		}
+	}
 	c.c09Fuzz()
 	c.c09Bombs()
 	c.c09Metadata()
